@@ -617,6 +617,12 @@ var c07fixed = []string{
 	"a: &a [{<<: {k: *a}}]\n",
 	"a: &a {k: 1}\nb: &b {c: {<<: [*a, *b]}}\n",
 	"a: &a {p: {<<: *b}}\nb: &b {q: {<<: *a}}\n",
+	// a quoted or explicitly tagged "<<" is an ordinary string key, not a merge
+	"a: &a {x: 1}\nm: {\"<<\": *a, y: 2}\n",
+	"a: &a {x: 1, y: 0}\nm: {y: 2, '<<': *a}\nn: {'<<': {k: v}, <<: *a}\n",
+	"m: {!!str <<: {k: v}, z: 1}\n",
+	"m: {\"<<\": scalar, '<<<': 1}\nl: [{\"<<\": [1, 2]}]\n",
+	"{\"a\": {\"<<\": {\"k\": 1}, \"b\": 2}}\n",
 }
 
 func c07run(w *report.W) {
@@ -708,7 +714,7 @@ func init() {
 		Rule: "documents are programs of choices over an anchor/alias/merge grammar: 2-4 top-level entries, each a scalar / alias / mapping / sequence, optionally anchored with one of three names " +
 			"(names may be reused, i.e. redefined); mappings have explicit keys a, b with nested nodes, an alias-as-key entry and three merge slots (before, between, after the explicit keys), each merge an alias, " +
 			"a sequence of aliases in either order, a nested sequence, an inline mapping or a mix; aliases may point backwards, forwards (rejected by the YAML parser and skipped) or to enclosing nodes " +
-			"(self / mutual cycles through values, sequences, keys and merges); enumerated with <=4 (quick) / <=5 (thorough) deviations from a default document that already anchors, aliases and merges, plus 27 hand-written deep shapes (value cycles closing through values, sequences, keys and merges of anchored ancestors) and layered merges of 2..80 layers (each layer merging the two before it / the one before it twice), which must decode within 90 s (they take milliseconds). " +
+			"(self / mutual cycles through values, sequences, keys and merges); enumerated with <=4 (quick) / <=5 (thorough) deviations from a default document that already anchors, aliases and merges, plus 32 hand-written shapes (value cycles closing through values, sequences, keys and merges of anchored ancestors; quoted and tagged `<<` keys, which are ordinary keys) and layered merges of 2..80 layers (each layer merging the two before it / the one before it twice), which must decode within 90 s (they take milliseconds). " +
 			"ordered.DecodeYAML and yaml.Unmarshal into *ordered.MapSA are compared with a two-phase reference (pure per-mapping merge resolution, then containment-cycle detection and expansion) on " +
 			"yaml.v3's node graph: content and order, independent copies (no shared mapping/sequence objects), value cycle => error, merge cycle tolerated, no panic / fatal crash / hang. " +
 			"Non-trivial = the document contains at least one alias and was compared in full (content, order, independence). Documents whose merge cycle runs through a sequence or several mappings, or that repeat an explicit key, are only checked for no panic / crash / hang.",
